@@ -81,7 +81,7 @@ class OriginMap:
 
 def run_verus(path, rlimit=None, seed=None, timeout=900):
     cmd = ["verus", os.path.basename(path), "--output-json", "--time", "--error-format=json",
-           "--multiple-errors", "5", "--num-threads", "4"]
+           "--multiple-errors", "5", "--num-threads", "4", "--triggers-mode", "silent"]
     if rlimit:
         cmd += ["--rlimit", str(rlimit)]
     if seed is not None:
